@@ -10,8 +10,10 @@ THEOREMS_C04 = [B + t for t in ["Bridge_pair_first", "Bridge_pair_second", "Brid
 THEOREMS_C05 = [B + t for t in ["Bridge_vv_step1", "Bridge_vv_step2", "Bridge_euler_step1", "Bridge_step_order"]]
 PL = ["Sympler.PairLists." + t for t in ["C07_lists_cleared_together", "C07_lists_cleared_for_all", "C07_clear_unconditional_on_size", "C07_clear_sites_cover"]]
 THEOREMS_C07 = [B + t for t in ["Bridge_pair_first", "Bridge_pair_second", "Bridge_pair_guards", "Bridge_pair_cutoff"]] + PL
-THEOREMS_C10 = [B + t for t in ["Bridge_pair_guards"]] + G
-EXTRA = ["Props.DynBridge", "Props.PairGuards", "Props.PairLists"]
+IL = ["Sympler.IntLoops.C10_integrators_free_only", "Sympler.IntLoops.C10_integrator_loops_cover", "Sympler.IntLoops.C10_controller_loops_free_only"]
+THEOREMS_C10 = [B + t for t in ["Bridge_pair_guards"]] + G + IL
+EXTRA = ["Props.DynBridge", "Props.PairGuards", "Props.PairLists", "Props.IntLoops"]
+NAME4 = "translator t_intloops (every particle loop of every integrator and of Controller with its loop macro)"
 NAME3 = "translator t_pairlists (every statement that clears a pair list in the two pair creators, with its conditions and loops)"
 NAME2 = "translator t_pairguards (EVERY write to a pair partner in force/, callable/, symbol/, integrator/, basic/, meter/, reflector/ with the conditions of its enclosing ifs)"
 NAME = "translator t_dyn (pair kernels of FPairVels/FPairScalar/FPairVector/PairParticleScalar/PairParticleVector with guards and cutoff test, velocity-Verlet and Euler integrator kernels, call order of Controller::integrate)"
@@ -24,6 +26,12 @@ def translate(ctx):
         ctx.oblige(NAME, True)
     except Exception as ex:
         ctx.oblige(NAME, False, repr(ex))
+    try:
+        import t_intloops
+        common.write_if_changed(os.path.join(common.LEAN, "Sympler/Gen/IntLoopsGen.lean"), t_intloops.generate(common.REPO))
+        ctx.oblige(NAME4, True)
+    except Exception as ex:
+        ctx.oblige(NAME4, False, repr(ex))
     try:
         import t_pairlists
         common.write_if_changed(os.path.join(common.LEAN, "Sympler/Gen/PairListsGen.lean"), t_pairlists.generate(common.REPO))
